@@ -930,10 +930,14 @@ fn explicit_steps(base: &[Step], d: &[u8], cap: usize) -> Vec<Step> {
     src.sizes.into_iter().filter(|n| *n >= 1).map(Step::Give).collect()
 }
 
+/// C07's own cases.  `gen_skip` (C09) and `gen_fault` (C20) are assembled into those checks by
+/// c09.rs / c20.rs; set VERIF_C07_ALL=1 to run all three through `./check C07` while developing.
 pub fn gen(g: &mut Gen) {
     gen_c07(g);
-    gen_skip(g);
-    gen_fault(g);
+    if std::env::var("VERIF_C07_ALL").map(|v| v == "1").unwrap_or(false) {
+        gen_skip(g);
+        gen_fault(g);
+    }
 }
 
 pub fn tables() -> String {
